@@ -16,9 +16,26 @@ use std::collections::{BTreeMap, VecDeque};
 use std::future::Future;
 use std::panic::{catch_unwind, AssertUnwindSafe};
 use std::pin::Pin;
-use std::sync::atomic::{AtomicBool, AtomicUsize, Ordering};
+use std::sync::atomic::{AtomicBool, AtomicU64, AtomicUsize, Ordering};
 use std::sync::{Arc, Mutex};
 use std::task::{Context as TaskCx, Poll, Wake, Waker};
+
+/// Watchdog (see `main`): the moment, in milliseconds since the process started (+1), at which the poll of a library
+/// future now running began; 0 while the harness itself runs.  A single poll that does not return is a wedged client
+/// (C04): no poll count can see it, only the clock.
+pub static IN_POLL: AtomicU64 = AtomicU64::new(0);
+
+pub fn clock_ms() -> u64 {
+    static T0: std::sync::OnceLock<std::time::Instant> = std::sync::OnceLock::new();
+    T0.get_or_init(std::time::Instant::now).elapsed().as_millis() as u64
+}
+
+fn timed<R>(f: impl FnOnce() -> R) -> R {
+    IN_POLL.store(clock_ms() + 1, Ordering::SeqCst);
+    let r = f();
+    IN_POLL.store(0, Ordering::SeqCst);
+    r
+}
 
 pub struct Flag {
     pub woken: AtomicBool,
@@ -366,7 +383,7 @@ impl Sim {
         let waker = Waker::from(self.ctx_flag.clone());
         let mut cx = TaskCx::from_waker(&waker);
         let fut = self.ctx_fut.as_mut().unwrap();
-        let r = catch_unwind(AssertUnwindSafe(|| fut.as_mut().poll(&mut cx)));
+        let r = timed(|| catch_unwind(AssertUnwindSafe(|| fut.as_mut().poll(&mut cx))));
         self.flush_io();
         let mut produced: Vec<Value> = std::mem::take(&mut *self.results.lock().unwrap());
         let unread = self.pipe.unread();
@@ -578,7 +595,7 @@ impl Sim {
         t.polled = true;
         let waker = Waker::from(t.flag.clone());
         let mut cx = TaskCx::from_waker(&waker);
-        let r = catch_unwind(AssertUnwindSafe(|| fut.as_mut().poll(&mut cx)));
+        let r = timed(|| catch_unwind(AssertUnwindSafe(|| fut.as_mut().poll(&mut cx))));
         {
             // a handle handed back for a slot whose handle has been dropped meanwhile is dropped as well
             let mut rc = self.recycled.lock().unwrap();
@@ -633,7 +650,7 @@ impl Sim {
         t.flag = Flag::new(false);
         let waker = Waker::from(t.flag.clone());
         let mut cx = TaskCx::from_waker(&waker);
-        let r = catch_unwind(AssertUnwindSafe(|| st.as_mut().poll_next(&mut cx)));
+        let r = timed(|| catch_unwind(AssertUnwindSafe(|| st.as_mut().poll_next(&mut cx))));
         let (rr, pk) = match r {
             Ok(Poll::Pending) => ("pending", empty_abs()),
             Ok(Poll::Ready(Some(d))) => {
